@@ -37,3 +37,17 @@ for i in mism[:8]:
         print("   diff (impl vs model):", otree_diff(obs[i], d))
     else:
         print("   detail:", str(d)[:1500])
+import collections
+nres = collections.Counter()
+nev = 0
+for o in obs:
+    r = sum(1 for x in o[2] if x[1]=='next' and x[2][0][1]=='result')
+    nres[min(r,5)] += 1
+    nev += sum(len(x[2][1][2]) for x in o[2] if x[1]=='next')
+exc = collections.Counter()
+for o in obs:
+    for x in o[2]:
+        if x[1]=='next' and x[2][0][1]=='raise':
+            e = x[2][0][2][0]
+            exc[e[1] if e[0] in 'SN' else '?'] += 1
+print("results/case", sorted(nres.items()), "events", nev, "exceptions", dict(exc))
